@@ -193,8 +193,17 @@ func runC10(r *vh.Run, i int) {
 	})
 	ctl := r.Rand(5_000_000 + i) // decisions of the driver itself, independent of the two histories' own streams
 	nops := 25 + ctl.Intn(25)
+	pauses := 0
+	if i%50 == 7 {
+		pauses = 3 // the directory store may reload index.json in the middle of the history (it looks again after a second)
+		r.Count("histories_with_mid_history_reloads", 1)
+	}
 	for op := 0; op < nops && !hd.bad; op++ {
-		both(func(h *hist) { h.step() })
+		if pauses > 0 && op > 3 && ctl.Intn(5) == 0 {
+			pauses--
+			time.Sleep(1100 * time.Millisecond)
+		}
+		both(func(h *hist) { h.step(); h.noteOrphans() })
 		if hd.diverged && twin {
 			twin = false // a collection inside the step recognised a recorded finding on the directory store
 			r.Count("twin_stopped", 1)
